@@ -329,12 +329,16 @@ func runOverlayTest(repo string, fn *ssa.Function, testPath string) (bool, strin
 }
 
 func runOverlayTestDir(pkgDir string, testPath string) (bool, string) {
+	return runOverlayTestNamed(pkgDir, testPath, "^TestGovcReplay$")
+}
+
+func runOverlayTestNamed(pkgDir string, testPath string, pattern string) (bool, string) {
 	ov := map[string]map[string]string{"Replace": {filepath.Join(pkgDir, "zz_govc_replay_test.go"): testPath}}
 	ovData, _ := json.Marshal(ov)
 	ovPath := testPath + ".overlay.json"
 	os.WriteFile(ovPath, ovData, 0644)
 	defer os.Remove(ovPath)
-	cmd := exec.Command("go", "test", "-overlay", ovPath, "-tags", "verif", "-vet=off", "-timeout", "60s", "-count=1", "-run", "^TestGovcReplay$", "-v", ".")
+	cmd := exec.Command("go", "test", "-overlay", ovPath, "-tags", "verif", "-vet=off", "-timeout", "300s", "-count=1", "-run", pattern, "-v", ".")
 	cmd.Dir = pkgDir
 	cmd.Env = append(os.Environ(), "GOFLAGS=-mod=mod", "GOPROXY=off", "GOSUMDB=off", "GOTOOLCHAIN=local")
 	out, err := cmd.CombinedOutput()
